@@ -190,7 +190,7 @@ func (e *env) getFr(v reflect.Value) *big.Int { return e.in.FrGet(v.Addr().Inter
 func (e *env) setFr(v reflect.Value, x *big.Int) {
 	e.in.FrSet(v.Addr().Interface(), e.F.Red(x))
 }
-func (e *env) getG1(v reflect.Value) any     { return e.in.G1Get(v.Addr().Interface()) }
+func (e *env) getG1(v reflect.Value) any    { return e.in.G1Get(v.Addr().Interface()) }
 func (e *env) setG1(v reflect.Value, p any) { e.in.G1Set(v.Addr().Interface(), p) }
 func (e *env) getFrs(v reflect.Value) []*big.Int {
 	out := make([]*big.Int, v.Len())
